@@ -5,7 +5,7 @@ symbolic (solver variables and ranges), shape (concrete container shape), role
 (A = must pass; B.. = isolates a known-bad input class), est (seconds, for batching).
 """
 
-DEFAULT_TIMEOUT = {"quick": 900, "thorough": 3600}
+DEFAULT_TIMEOUT = {"quick": 420, "thorough": 2400}
 REACH_CHECKS = {"quick": False, "thorough": False}
 
 ASSUMPTIONS = [
@@ -69,3 +69,25 @@ HOOK_COMMITS = ["fda5525"]
 NOT_APPLICABLE = [
     {"property_id": "C09", "reason": "reference/reference_mut = pest parser + serde_json BTreeMap pointer lookup; neither goes through CBMC (parser: no verdict in 20 min on a 3-byte concrete input; 2-member BTreeMap lookup: OOM at 12 GB), and the function exists only for serde_json::Value"},
 ]
+
+# ----------------------------------------------------------------------------- C04
+_C04_FUNCS = ["query::comparison::eq", "query::comparison::lt", "query::comparison::eq_json"]
+_C04 = """nothing_nothing nothing_null nothing_bool nothing_int nothing_float nothing_str nothing_arr nothing_obj
+null_null null_bool null_int null_float null_str null_arr null_obj bool_bool bool_int bool_float bool_str bool_arr bool_obj
+int_int iint_float float_float int_str int_arr int_obj float_str float_arr float_obj str1_str1 ascii2_ascii2 str1_ascii2 str_arr str_obj
+arr_arr arr2_arr2 arr_arr2 arr_obj obj_obj obj_obj_ba obj_obj1""".split()
+PROPS["C04"] = [
+    H("comparison", "c04_" + n, funcs=_C04_FUNCS,
+      symbolic="payloads of both operands (any i64 / I-JSON int / any finite f64 / any string of <=2 scalars / arrays of <=2 ints / objects of <=2 members), operand form value|node-ref",
+      shape="operand kinds " + n.replace("_", " x "), est=8)
+    for n in _C04
+] + [
+    H("comparison", "c04_str_str", tiers="t", funcs=_C04_FUNCS, symbolic="two strings of <= 2 arbitrary Unicode scalars each",
+      shape="string x string", est=500, timeout=1800),
+    H("comparison", "c04_roled_arr_if_fi", funcs=_C04_FUNCS, role="D",
+      symbolic="array elements: I-JSON int and finite float", shape="[int,float] vs [float,int]", est=8),
+]
+PROP_INFO["C04"] = {
+    "bounds": "one harness per unordered pair of operand kinds {nothing,null,bool,int,float,string,array,object}; strings <= 2 scalars, arrays <= 2 elements, objects <= 2 members; mixed int/float comparisons with the int in the I-JSON range",
+    "outside": ["strings longer than 2 scalars", "containers nested deeper than 1", "u64 integers above i64::MAX", "integers outside I-JSON compared with floats", "operator token parsing (grammar)"],
+}
